@@ -8,7 +8,7 @@
    stubs, MXCSR/x87 preservation, alloca. *)
 From Coq Require Import List ZArith Lia.
 From MirV Require Import Base.W64 C05.SysV C05.AbiImpl C05.AbiProofs C05.Conv C05.ConvProofs C06.VaList C06.VaProofs C06.Frame C06.FrameProofs
-  C06.Alloca C06.AllocaProofs C06.CtlState C06.CtlStateProofs C06.CodeFacts C06.SlotAddr C06.SlotAddrProofs gen.C05Abi.
+  C06.Alloca C06.AllocaProofs C06.CtlState C06.CtlStateProofs C06.CodeFacts C06.SlotAddr C06.SlotAddrProofs C06.Dce C06.DceProofs gen.C05Abi.
 Import ListNotations.
 Local Open Scope Z_scope.
 
@@ -338,3 +338,43 @@ Theorem scalar_only_fp_rule_refuted :
     /\ body_slot_addr false 0 sp 0 off <> body_slot_addr false 0 F 0 off.
 Proof. exact scalar_only_rule_refuted_lem. Qed.
 Print Assumptions scalar_only_fp_rule_refuted.
+
+(* ---- round 3: insns with a side effect whose output is dead ----
+   both dead-code eliminations (SSA, -O2 and above; after register allocation) delete an insn only if it has an
+   output without a use and is not in their list of control insns; the lists read off the checked tree keep calls
+   and va_arg (after register allocation va_arg is a builtin call) *)
+Theorem dce_lists_keep_side_effects : rules_ok gen_ssa_rules = true /\ rules_ok gen_postra_rules = true.
+Proof. exact gen_dce_rules_ok. Qed.
+Print Assumptions dce_lists_keep_side_effects.
+
+(* for every body of va reads / allocas / calls / ordinary insns, every choice of which outputs are used and every
+   set of deletions such a pass may make (cascades included; dead allocas may go): the final va_list, the calls made and
+   everything the used insns deliver are what the undeleted body gives *)
+Theorem dce_preserves_side_effects : forall r, rules_ok r = true -> forall p m st, mask_ok r p m = true ->
+  dobs (drun (dce_apply p m) st) = dobs (drun p st).
+Proof. intros r R p m st M. exact (dce_preserves r R p m st st eq_refl eq_refl M). Qed.
+Print Assumptions dce_preserves_side_effects.
+
+(* a variadic callee that SKIPS arguments: whatever subset of the tail the body looks at (`used`), after either
+   elimination pass the reads it keeps deliver exactly the psABI locations of those arguments (generated code and
+   interpreter) and the va_list ends where reading the whole tail ends *)
+Theorem skipped_va_args_eq_sysv : forall named tail used m sp calls,
+  wf_args (named ++ tail) = true -> length used = length tail ->
+  mask_ok gen_ssa_rules (va_body tail used) m = true ->
+  let st0 := {| d_va := gen_va_start named; d_sp := sp; d_calls := calls |} in
+  let st1 := {| d_va := snd (interp_decode true named); d_sp := sp; d_calls := calls |} in
+  snd (drun (dce_apply (va_body tail used) m) st0)
+    = map Some (select (skipn (length named) (fst (assign (named ++ tail)))) used)
+  /\ snd (drun (dce_apply (va_body tail used) m) st1)
+    = map Some (select (skipn (length named) (fst (assign (named ++ tail)))) used)
+  /\ d_va (fst (drun (dce_apply (va_body tail used) m) st0)) = snd (va_read_seq true true (gen_va_start named) tail).
+Proof. exact (skipped_reads_eq_sysv gen_ssa_rules (proj1 gen_dce_rules_ok)). Qed.
+Print Assumptions skipped_va_args_eq_sysv.
+
+(* a list without va_arg (seeded C06-z1) is refuted: a skipped long followed by a read one *)
+Theorem dce_list_without_va_arg_refuted : exists named tail used m,
+  wf_args (named ++ tail) = true /\ length used = length tail /\ mask_ok no_va_arg_rules (va_body tail used) m = true
+  /\ snd (drun (dce_apply (va_body tail used) m) {| d_va := gen_va_start named; d_sp := 0; d_calls := [] |})
+     <> map Some (select (skipn (length named) (fst (assign (named ++ tail)))) used).
+Proof. exact no_va_arg_rule_refuted. Qed.
+Print Assumptions dce_list_without_va_arg_refuted.
